@@ -72,12 +72,14 @@ fn enc_str(s: &str, o: &mut Vec<i64>) {
     o.push(cs.len() as i64);
     for c in cs { o.push(c as i64) }
 }
-fn json_to_val(v: &serde_json::Value) -> Val {
+/// JSON value -> model value. JSON has one number type: a number of a Float field is read as a float
+/// (`2` and `2.0` are the same value), any other integral number as an integer.
+fn json_to_val(v: &serde_json::Value, ty: FT) -> Val {
     match v {
         serde_json::Value::Null => Val::Null,
         serde_json::Value::Bool(b) => Val::Bool(*b),
         serde_json::Value::Number(n) => {
-            if let Some(i) = n.as_i64() { Val::Int(i) }
+            if ty != FT::Flt && n.as_i64().is_some() { Val::Int(n.as_i64().unwrap()) }
             else {
                 let f = n.as_f64().unwrap();
                 let q = f * 4.0;
@@ -249,7 +251,7 @@ fn run_real(w: &World, q: &QSpec, text: &str, ps: &[(String, Val)]) -> Answer {
                 let obj = o.as_object().expect("row object");
                 let mut r = vec![];
                 for k in 0..q.sel.len() {
-                    match obj.get(&q.sel_name(&w.model, k)) { Some(x) => r.push(json_to_val(x)), None => r.push(Val::Str("<<missing key>>".into())) }
+                    match obj.get(&q.sel_name(&w.model, k)) { Some(x) => r.push(json_to_val(x, w.model.fields[q.sel[k].field].ty)), None => r.push(Val::Str("<<missing key>>".into())) }
                 }
                 if obj.len() != q.sel.len() { r.push(Val::Str("<<extra keys>>".into())); }
                 rows.push(r);
@@ -286,8 +288,9 @@ fn run_pages(w: &World, q: &QSpec, ps: &[(String, Val)], n: i64, fuel: usize) ->
         qq.skip = None;
         let mut pp: Vec<(String, Val)> = vec![];
         if let Some(c) = &cursor {
-            qq.paging = Paging::After((0..c.len()).map(|j| Opnd::Var(format!("c{}", j))).collect());
-            for (j, v) in c.iter().enumerate() { pp.push((format!("c{}", j), v.clone())); }
+            let cname = |j: usize| format!("c{}", "0".repeat(j));   // c, c0, c00 (= Run_C05.cursor_name)
+            qq.paging = Paging::After((0..c.len()).map(|j| Opnd::Var(cname(j))).collect());
+            for (j, v) in c.iter().enumerate() { pp.push((cname(j), v.clone())); }
         }
         pp.extend_from_slice(ps);
         let text = qq.text(&w.model);
@@ -386,7 +389,7 @@ fn build_world(rng: &mut Rng, mut model: Model, nrows: usize, explicit: Option<V
         let obj = v.as_object().unwrap();
         let known: Vec<&String> = model.fields.iter().map(|f| &f.short).collect();
         for k in obj.keys() { assert!(known.contains(&k), "stored key {} is not a field short name", k); }
-        rows.push(model.fields.iter().map(|f| obj.get(&f.short).map(json_to_val).unwrap_or(Val::Null)).collect::<Vec<_>>());
+        rows.push(model.fields.iter().map(|f| obj.get(&f.short).map(|x| json_to_val(x, f.ty)).unwrap_or(Val::Null)).collect::<Vec<_>>());
     }
     World { dm, conn, model, rows }
 }
